@@ -29,6 +29,7 @@ macro_rules! dispatch {
             "C10" => $f(&props::c10::C10, $($args),*),
             "C11" => $f(&props::c11::C11, $($args),*),
             "C12" => $f(&props::c12::C12, $($args),*),
+            "C18" => $f(&props::c18::C18, $($args),*),
             other => {
                 eprintln!("unknown property {}", other);
                 2
